@@ -5,6 +5,27 @@ DEPS = ("Trusted base: rustc 1.97 nightly (type checker, const evaluator, match 
         "serde_bytes 0.11.19, cosey 0.3.2, iso7816 0.1.4 for value-level encoding/decoding. ")
 
 CLAIMS = {
+    "C07": {
+        "level": "other",
+        "technique": "static ordered-append analysis: exhaustive path enumeration of the two serializers from typed HIR, per-path append sequence vs the WebAuthn layout, who-may-call on the buffer, Result-propagation (error discipline) on every append",
+        "text": "Layout order, field widths, endianness, presence-iff-supplied of the optional parts, append-only use of a fresh Bytes<676>, and propagation of every append's and the length conversion's failure are all structural and are decided completely on every path; "
+                "flag and capacity constants are compared with the specification. Together this gives the exact layout and error-not-panic/never-shortened for all inputs, relative to heapless's all-or-nothing appends.",
+        "note": DEPS + "Not decided: CBOR bytes of the extension map (C02/C03 + cbor-smol).",
+    },
+    "C08": {
+        "level": "other",
+        "technique": "static path-literal analysis of the APDU parser (result sites with canonicalised dominating guards), guard-chain totality rule, interval-domain discharge of every index/slice/unwrap obligation, control-byte table extraction",
+        "text": "Every result of the parser is decided from the set of branch literals that dominate it, compared with the literals the U2F raw message format requires (class precedence, instruction, exact lengths, offsets), the error exits are shown to be exactly the single negations of each success guard chain (totality and exactness), "
+                "and every panic-capable slice operation is discharged by an interval fact from those guards. Holds for all APDUs relative to iso7816's accessors.",
+        "note": DEPS + "Not decided: Lc/Le framing and Instruction::from (iso7816).",
+    },
+    "C09": {
+        "level": "other",
+        "technique": "static ordered-append analysis of ctap1::Response::serialize per variant, who-may-call / Result-propagation rules, static-capacity discharge of the u8 length cast and of register::Response::new's unwraps",
+        "text": "Append order, big-endian counter, length-of-the-same-key-handle, append-only use of the caller's buffer, propagation of every append's failure and unconditional appends (length = sum of parts) are decided on every path; "
+                "the narrowing cast and the three unwraps are discharged from type-level capacities (255 <= u8::MAX, 1+32+32 <= 65).",
+        "note": DEPS + "Relative to heapless's all-or-nothing push/extend_from_slice.",
+    },
     "C05": {
         "level": "other",
         "technique": "static decision-table extraction of the error conversion expanded over every cbor_smol::Error variant; funnel (error-discipline) rule over all result and `?` sites of Request::deserialize; required-set agreement of the generated decoders",
